@@ -368,6 +368,26 @@ theorem evdLoop_inv (refs : List String) : ∀ (evd : List Evd) (a : Acc),
         · exact ih.refNE
         · intro h; exact ih.unrefNE (nonEmptyK_addTo _ _ _ h)
 
+/-- the translated loop body does what the hand-written loop does -/
+theorem evdLoopM_eq (refs : List String) : ∀ (evd : List Evd) (a : Acc), evdLoopM refs evd a = .ok (evdLoop refs evd a)
+  | [], a => rfl
+  | e :: es, a => by
+    unfold evdLoopM evdLoop
+    by_cases hs : e.inst ∈ a.seen
+    · simp only [hs, decide_true, Gen.evidenceStep, if_true]
+      simp
+      exact evdLoopM_eq refs es a
+    · by_cases hr : e.inst ∈ refs
+      · simp only [hs, hr, decide_true, decide_false, Gen.evidenceStep, if_true, if_false]
+        simp
+        exact evdLoopM_eq refs es _
+      · simp only [hs, hr, decide_false, Gen.evidenceStep, if_false]
+        simp
+        exact evdLoopM_eq refs es _
+
+theorem evidenceGuard_eval (b : Bool) : Gen.evidenceGuard b = if b then .ok true else .error .value := by
+  cases b <;> simp [Gen.evidenceGuard]
+
 /-! first occurrences -/
 
 theorem firstByInst_sub : ∀ (evd : List Evd) (seen : List String), ∀ e ∈ firstByInst evd seen, e ∈ evd ∧ e.inst ∉ seen
@@ -455,7 +475,7 @@ theorem collectEvidence_ok (evd : List Evd) (tree : Item) (refs : List String) (
       WellGrouped cur ∧ WellGrouped oth := by
   have hinv := evdLoop_inv refs evd ⟨[], [], []⟩
   refine ⟨createReferences (evdLoop refs evd ⟨[], [], []⟩).refG [], createReferences (evdLoop refs evd ⟨[], [], []⟩).unrefG [], ?_, ?_, ?_, ?_, ?_⟩
-  · simp only [collectEvidence, hr, bind, Except.bind]
+  · simp only [collectEvidence, hr, evdLoopM_eq, evidenceGuard_eval]
     rw [if_pos ((seen_all_iff refs evd).mpr hall)]
   · refine (rows_createReferences _ []).trans ?_
     simp only [rows, List.nil_append]
@@ -470,7 +490,7 @@ theorem collectEvidence_ok (evd : List Evd) (tree : Item) (refs : List String) (
 
 theorem collectEvidence_missing (evd : List Evd) (tree : Item) (refs : List String) (hr : refUids tree = .ok refs)
     (hmiss : ∃ u ∈ refs, u ∉ evd.map (·.inst)) : collectEvidence evd tree = .error .value := by
-  simp only [collectEvidence, hr, bind, Except.bind]
+  simp only [collectEvidence, hr, evdLoopM_eq, evidenceGuard_eval]
   rw [if_neg]
   intro h
   obtain ⟨u, hu, hn⟩ := hmiss
@@ -483,7 +503,7 @@ theorem collectEvidence_spec (evd : List Evd) (tree : Item) (cur oth : Groups)
       (rows oth).Perm (((firstByInst evd []).filter (fun e => !decide (e.inst ∈ refs))).map Evd.row) ∧
       WellGrouped cur ∧ WellGrouped oth := by
   cases hr : refUids tree with
-  | error e => simp [collectEvidence, hr, bind, Except.bind] at h
+  | error e => simp [collectEvidence, hr] at h
   | ok refs =>
     by_cases hall : ∀ u ∈ refs, u ∈ evd.map (·.inst)
     · obtain ⟨c, o, hco, h1, h2, h3, h4⟩ := collectEvidence_ok evd tree refs hr hall
